@@ -18,6 +18,7 @@ import (
 	"path/filepath"
 	"runtime"
 	"runtime/debug"
+	"runtime/pprof"
 	"sort"
 	"strings"
 	"time"
@@ -852,6 +853,7 @@ func enumerate(ctx *seq.Ctx) {
 		}
 	}
 	enumerateOrchestrated(ctx)
+	enumerateReal(ctx)
 	ctx.Note(fmt.Sprintf("pool-reuse/worker-pid-%d", os.Getpid()), fmt.Sprintf("%d records processed in sequences, %d reused *LogRecord, %d reused backing buffers, %d cases with reuse below the pool model's expectation", poolStats.records, poolStats.recHits, poolStats.bufHits, poolStats.belowExpectation))
 }
 
@@ -864,6 +866,12 @@ func main() {
 	// cycle empties sync.Pool); every case ends with an explicit runtime.GC()
 	runtime.GOMAXPROCS(1)
 	debug.SetGCPercent(-1)
+	if path := os.Getenv("VERIF_ISO_PROF"); path != "" { // developer aid: CPU profile of one worker process
+		if f, err := os.Create(path); err == nil {
+			pprof.StartCPUProfile(f)
+			defer pprof.StopCPUProfile()
+		}
+	}
 	// limits scaled down (buffer sizes only): message limit 4096 bytes, so that the "overflow" shape is cut by the parser
 	defs.InputLogMaxMessageBytes = 4096
 	defs.InputLogMaxRecordBytes = defs.InputLogMaxMessageBytes + 256
